@@ -13,7 +13,8 @@ import (
 // VerifC08Panics: one request of any kind (core, vikja, odal, dagaz) with every optional sub-message nil or
 // present and every scalar arbitrary (including non-finite floats), from a joined participant. The only
 // assertions are the engine's implicit ones: no nil dereference, no index/slice out of range, no failed type
-// assertion, no division by zero, no impossible allocation, no explicit panic on any path.
+// assertion, no division by zero, no impossible allocation, no explicit panic on any path; and the handler
+// returns within a step budget.
 func VerifC08Panics() {
 	s := newStepWorld(stepShape{mods: vModVikja | vModOdal | vModDagaz, preset: 0})
 	kind := verifnd.Choice(kQuadSample) // dagaz geometry has its own harness (bit-precise floats on cvc5)
@@ -23,7 +24,9 @@ func VerifC08Panics() {
 	if !joined {
 		actor = s.n0
 	}
+	verifnd.Terminates(3000000, "C08.handler_returns")
 	actor.do(r.msg)
+	verifnd.Terminates(0, "")
 	verifnd.Reach("C08.panics.done")
 	verifnd.Reach("C08.kind." + kindName(kind))
 }
